@@ -45,7 +45,11 @@ func (c RawConfiguration) Multicast(ctx context.Context, d QuorumCallData, opts 
 	// nodeStream sends an empty reply on replyChan when the message has been sent
 	// wait until the message has been sent
 	for ; sentMsgs > 0; sentMsgs-- {
-		<-replyChan
+		select {
+		case <-replyChan:
+		case <-ctx.Done():
+			return
+		}
 		vEmit("CallConfirm", 0, md.MessageID, "left", sentMsgs-1)
 	}
 	vEmit("CallEnd", 0, md.MessageID, "out", "sent")
